@@ -48,13 +48,13 @@ def snapshot_config(ev, d, k):
     return open(p).read()
 
 
-def res_equal(a, b, metrics):
+def res_equal(a, b, metrics, ordered=False):
     if isinstance(a, str) or isinstance(b, str):
         return None if a == b else f"{a} vs {b}"
     if sorted(a) != sorted(b):
         return f"groups differ {sorted(a)} vs {sorted(b)}"
     for g in a:
-        d = summ_equal(a[g], b[g], metrics)
+        d = summ_equal(a[g], b[g], metrics, ordered=ordered)
         if d:
             return f"group {g}: {d}"
         for k in a[g]:
@@ -197,24 +197,30 @@ def one_history(ctx, src):
         shutil.rmtree(d, ignore_errors=True)
 
 
+def pool_one(ctx, pred, ref, cfg):
+    a = E.run_impl(cfg, pred, ref)
+    impl.serial_pool(False)
+    try:
+        b = E.run_impl(cfg, pred, ref)
+    finally:
+        impl.serial_pool(True)
+    inp = {"shape": list(pred.shape), "dtype": str(pred.dtype), "pred": gen.arr_json(pred), "ref": gen.arr_json(ref), "cfg": cfg, "kind": "pool"}
+    ctx.case(inp, True)
+    ctx.count("real_pool_runs")
+    # same input, same configuration, same process: the per-instance lists are compared as reported (in order)
+    d = res_equal(a, b, cfg["eval_metrics"], ordered=True)
+    if d:
+        ctx.violation(f"result differs between serial evaluation and the multiprocessing pool: {d}", inp, key={"kind": "pool-dependent"})
+
+
 def pool_slice(ctx, n):
     """serial stand-in vs real multiprocessing.Pool on the same inputs"""
     rng = ctx.rng
     for i in range(n):
         pred, ref = gen.pair(rng, hi=6, max_obj=3, allow_empty=False)
-        cfg = E.mk_cfg("UNMATCHED", ["IOU", "DSC", "ASSD"], matcher=E.naive("IOU", (1, 2)))
-        a = E.run_impl(cfg, pred, ref)
-        impl.serial_pool(False)
-        try:
-            b = E.run_impl(cfg, pred, ref)
-        finally:
-            impl.serial_pool(True)
-        inp = {"shape": list(pred.shape), "pred": gen.arr_json(pred), "ref": gen.arr_json(ref), "cfg": cfg, "kind": "pool"}
-        ctx.case(inp, True)
-        ctx.count("real_pool_runs")
-        d = res_equal(a, b, cfg["eval_metrics"])
-        if d:
-            ctx.violation(f"result differs between serial evaluation and the multiprocessing pool: {d}", inp, key={"kind": "pool-dependent"})
+        it = rng.choice(["UNMATCHED", "UNMATCHED", "MATCHED", "SEMANTIC"])
+        cfg = E.mk_cfg(it, ["IOU", "DSC", "ASSD"], matcher=None if it == "MATCHED" else E.naive("IOU", (1, 2)))
+        pool_one(ctx, pred, ref, cfg)
 
 
 def worker_start_method_cases(ctx, n):
@@ -298,6 +304,10 @@ def search(ctx):
 
 def replay(ctx, rec):
     i = rec["input"]
+    if i.get("kind") == "pool" and i.get("mode") is None:
+        dt = np.dtype(i.get("dtype", "uint8"))
+        pool_one(ctx, np.array(i["pred"], dtype=dt).reshape(i["shape"]), np.array(i["ref"], dtype=dt).reshape(i["shape"]), i["cfg"])
+        return
     if i.get("kind") == "pool":
         return
     if i.get("kind") == "construction":
